@@ -15,7 +15,7 @@ CONSTANTS TraceFile, OutFile
 Trace == ndJsonDeserialize(TraceFile)
 
 VARIABLES l, pre, post, viol, nonconf, done
-vars == <<l, g, content, tags, indexed, stray, pre, post, viol, nonconf, done>>
+vars == <<l, g, content, tags, indexed, stray, tagann, pre, post, viol, nonconf, done>>
 Rec == Trace[l]
 NoG == [n |-> 0]
 
@@ -23,13 +23,13 @@ V(checks) == viol' = viol \cup {[t |-> Rec.t, i |-> Rec.i, inv |-> c[1]] : c \in
 TagPairs(T) == {<<r, T[r]>> : r \in {q \in Refs : T[q] # 0}}
 PairsOf(s) == {<<s[i][1], s[i][2]>> : i \in 1..Len(s)}
 
-Init == /\ l = 1 /\ g = NoG /\ content = {} /\ tags = <<>> /\ indexed = {} /\ stray = {}
+Init == /\ l = 1 /\ g = NoG /\ content = {} /\ tags = <<>> /\ indexed = {} /\ stray = {} /\ tagann = <<>>
         /\ pre = [content |-> {}] /\ post = [content |-> {}] /\ viol = {} /\ nonconf = {} /\ done = FALSE
 
 EvInit ==
   /\ Rec.e = "init"
   /\ g' = Rec /\ content' = {} /\ indexed' = {} /\ stray' = {} /\ tags' = [r \in Rng(Rec.refs) |-> 0]
-  /\ UNCHANGED <<pre, post, viol, nonconf>>
+  /\ UNCHANGED <<tagann, pre, post, viol, nonconf>>
 
 \* a setup operation (it returned before the crash): advance the model
 EvSetup ==
@@ -37,7 +37,7 @@ EvSetup ==
   /\ LET x == Expect(Rec) IN
      /\ content' = x.content /\ tags' = x.tags /\ indexed' = x.indexed /\ stray' = x.stray
      /\ V({<<"SetupResult", x.res = "ok">>})
-  /\ UNCHANGED <<g, pre, post, nonconf>>
+  /\ UNCHANGED <<g, tagann, pre, post, nonconf>>
 
 \* the victim: L2 comparison of the recorded system calls with the model's steps
 Count(s, x) == Cardinality({i \in 1..Len(s) : s[i] = x})
@@ -52,7 +52,7 @@ EvVictim ==
         \* the order in which cascaded nodes are removed is not part of the model: compare as bags, and the first step
         /\ nonconf' = IF SameBag(want, got) /\ (want = <<>> \/ got = <<>> \/ want[1] = got[1]) THEN nonconf ELSE nonconf \cup {[t |-> Rec.t, i |-> Rec.i, inv |-> "StepsDiffer"]}
         /\ V({<<"VictimResult", Rec.res = x.res>>})
-  /\ UNCHANGED <<g, content, tags, indexed, stray>>
+  /\ UNCHANGED <<g, content, tags, indexed, stray, tagann>>
 
 \* the process was killed before its k-th system call; r = what was found afterwards
 EvCrash ==
@@ -68,7 +68,7 @@ EvCrash ==
            <<"NothingInvented", Rng(r.blobs) \subseteq either>>,
            <<"CompletedRunIsAfter", Rec.k = 0 => (r.openok /\ PairsOf(r.tags) = TagPairs(post.tags)
                                                    /\ Rng(r.exists) = post.content)>>})
-  /\ UNCHANGED <<g, content, tags, indexed, stray, pre, post, nonconf>>
+  /\ UNCHANGED <<g, content, tags, indexed, stray, tagann, pre, post, nonconf>>
 
 Step ==
   /\ l <= Len(Trace)
@@ -80,7 +80,7 @@ Finish ==
   /\ l = Len(Trace) + 1 /\ ~done
   /\ done' = TRUE
   /\ JsonSerialize(OutFile, [consumed |-> l - 1, viol |-> viol, nonconf |-> nonconf])
-  /\ UNCHANGED <<l, g, content, tags, indexed, stray, pre, post, viol, nonconf>>
+  /\ UNCHANGED <<l, g, content, tags, indexed, stray, tagann, pre, post, viol, nonconf>>
 
 Next == Step \/ Finish
 Spec == Init /\ [][Next]_vars
